@@ -44,8 +44,9 @@ fn now_ms() -> u64 {
 struct InCall;
 impl InCall {
     fn enter(what: &str) -> InCall {
-        if CALLS_IN_FLIGHT.fetch_add(1, Ordering::SeqCst) == 0 {
-            LAST_PROGRESS_MS.store(now_ms(), Ordering::SeqCst);
+        let first = CALLS_IN_FLIGHT.fetch_add(1, Ordering::SeqCst) == 0;
+        if first { LAST_PROGRESS_MS.store(now_ms(), Ordering::SeqCst); }
+        if first || what.starts_with('`') {
             if let Ok(mut c) = CURRENT_CALL.try_lock() { c.clear(); c.push_str(what); }
         }
         InCall
@@ -296,7 +297,7 @@ impl Case {
         let setup = parse_ops(w[5].strip_prefix("setup=")?)?;
         let t = w[6].strip_prefix("thr=")?;
         let threads = if t == "-" { vec![] } else { t.split('/').map(parse_ops).collect::<Option<Vec<_>>>()? };
-        let seq = w.get(7).map(|o| *o != "order=-").unwrap_or(true);
+        let seq = w.get(7).map(|o| *o != "order=-" && !o.starts_with("order=d")).unwrap_or(true);
         Some(Case { tmo, imm, kind, window, cap, setup, threads, seq })
     }
 }
@@ -1467,7 +1468,11 @@ fn run_life(seed: u64, fixed: Option<Fixed>) -> SqResult {
         let fin = format!("{}:{}:{}", sent, acked, if cancelled { 1 } else { 0 });
         let got = r.as_ref().map(|x| x.0.clone()).unwrap_or(Got::Parked);
         let win_word = match fixed.as_ref().and_then(|f| f.cap) { Some(c) => format!("{}/{}", w.window, c), None => w.window.to_string() };
-        let line = format!("sq IDX {} {} {} setup={} thr={} order=- got={} fin={}", k, len, win_word, show_ops(&line_setup), thr, got.show(), fin);
+        let ord_word = match fixed.as_ref().and_then(|f| f.idle_deadline) {
+            Some(dd) if dd >= Duration::from_millis(100) => format!("d{}{}", dd.as_millis(), if stall.is_some() { "s" } else { "" }),
+            _ => "-".to_string(),
+        };
+        let line = format!("sq IDX {} {} {} setup={} thr={} order={} got={} fin={}", k, len, win_word, show_ops(&line_setup), thr, ord_word, got.show(), fin);
         let nth = format!("wait {} of {} in the life of one control ({} ms deadline)", round + 1, rounds, d.as_millis());
         // (j) every observation is a state the control really was in (offsets() is one lock region)
         for (s, a, c) in &observed {
@@ -1904,8 +1909,13 @@ fn main() {
                         // the recorded wait on a control with the recorded history (earlier waits included, `w:*`) ...
                         let all: Vec<Op> = c.threads.iter().flatten().cloned().collect();
                         let during: Vec<Op> = if all.len() > 1 { all[..all.len() - 1].to_vec() } else { vec![] };
+                        // `order=d<ms>[s]`: the scripted deadline of a stall case (s: the event comes only after that silence)
+                        let dword = words(&l).get(7).and_then(|o| o.strip_prefix("order=d")).map(|x| x.to_string());
+                        let idle = dword.as_ref().and_then(|x| x.trim_end_matches('s').parse::<u64>().ok()).map(Duration::from_millis);
+                        let delay = if dword.as_ref().map(|x| x.ends_with('s')).unwrap_or(false) { idle } else { None };
+                        if idle.is_some() && i >= 2 { break; }
                         let r = run_life(rng.next(), Some(Fixed { window: c.window, cap: c.cap, setup: c.setup.clone(), kind: c.kind.clone(), during,
-                            enabling: all.last().cloned(), during_on_setup: false, observers: (i % 3) as u8, idle_deadline: None, delay_before_ops: None }));
+                            enabling: all.last().cloned(), during_on_setup: false, observers: (i % 3) as u8, idle_deadline: idle, delay_before_ops: delay }));
                         log_sq(&mut out, r, &mut idx);
                         // ... and, when the history says the wait starts with its condition false, also preceded by waits that time out
                         let mut spec = Spec::new(c.window);
